@@ -48,6 +48,22 @@ func applyTrailers(expr ast.Expr, trailers []ast.Expr) ast.Expr {
 
 // Set the context for expr
 func setCtx(yylex yyLexer, expr ast.Expr, ctx ast.ExprContext) {
+	// Check the elements of compound targets here: their SetCtx
+	// methods assume that every element can be a target
+	switch e := expr.(type) {
+	case *ast.Tuple:
+		setCtxs(yylex, e.Elts, ctx)
+		e.Ctx = ctx
+		return
+	case *ast.List:
+		setCtxs(yylex, e.Elts, ctx)
+		e.Ctx = ctx
+		return
+	case *ast.Starred:
+		setCtx(yylex, e.Value, ctx)
+		e.Ctx = ctx
+		return
+	}
 	setctxer, ok := expr.(ast.SetCtxer)
 	if !ok {
 		expr_name := ""
